@@ -456,9 +456,21 @@ func (e *EntitlementMapAccess) Image(gauge common.MemoryGauge, inputs Access, po
 		output := orderedmap.New[EntitlementOrderedSet](inputs.Entitlements.Len())
 
 		var err error
+		var hasDisjunctWithEmptyImage bool
 		inputs.Entitlements.Foreach(func(entitlement *EntitlementType, _ struct{}) {
 			entitlementImage := e.entitlementImage(entitlement)
 			output.SetAll(entitlementImage)
+
+			// A disjunction only guarantees that one (unspecified) of its entitlements is held.
+			// If one of them has no image, the holder might hold just that one,
+			// and then obtains nothing through the map:
+			// consider a mapping M defined as X -> Y. M(X | A) must not be Y,
+			// because `auth(A) &T` is a subtype of `auth(X | A) &T`, and M(A) is unauthorized.
+			if inputs.SetKind == Disjunction &&
+				entitlementImage.Len() == 0 {
+
+				hasDisjunctWithEmptyImage = true
+			}
 
 			// The image of a single element is always a conjunctive set;
 			// consider a mapping M defined as X -> Y, X -> Z, A -> B, A -> C. M(X) = Y & Z and M(A) = B & C.
@@ -481,7 +493,7 @@ func (e *EntitlementMapAccess) Image(gauge common.MemoryGauge, inputs Access, po
 		}
 
 		// the image of a set through a map is the conjunction of all the output sets
-		if output.Len() == 0 {
+		if output.Len() == 0 || hasDisjunctWithEmptyImage {
 			return UnauthorizedAccess, nil
 		}
 
